@@ -4,6 +4,7 @@ import (
 	"fmt"
 	"reflect"
 	"strings"
+	"unicode/utf8"
 
 	"github.com/hattya/go.sh/ast"
 	"github.com/hattya/go.sh/interp"
@@ -137,10 +138,12 @@ func c14Exec(c *core.Ctx, cs c14Case) {
 			if !cs.IFSSet {
 				ifs = " \t\n"
 			}
-			for _, r := range s.Text {
-				if !strings.ContainsRune(ifs, r) {
-					all.WriteRune(r)
+			for t := s.Text; t != ""; {
+				_, w := utf8.DecodeRuneInString(t)
+				if !refsplit.IsIFS(ifs, t[:w]) {
+					all.WriteString(t[:w])
 				}
+				t = t[w:]
 			}
 		}
 		if strings.Join(got, "") != all.String() {
@@ -243,6 +246,14 @@ func c14Gen(c *core.Ctx) {
 					}
 				}
 			}
+		}
+	}
+	// invalid bytes are characters of their own: they delimit only when IFS holds that very byte
+	for _, d := range []struct{ ifs, text string }{
+		{"\xff", "a\xfeb"}, {"\ufffd", "a\xffb"}, {"\xff", "a\ufffdb"}, {",\xe3\x81", "a\xc0b,c"}, {" \x80", "a\xf5b c"}, {"\xff", "a\xffb\xfec"}, {"\xfe\xff", "\xffa\xfe\xfdb"},
+	} {
+		for _, q := range []bool{false, true} {
+			core.Do(c, c14Case{Segs: []refsplit.Seg{{Text: "x"}, {Text: d.text, Quoted: q}, {Text: "y"}}, IFS: d.ifs, IFSSet: true, Kind: "invalid-bytes"}, c14Exec)
 		}
 	}
 	// random longer words
